@@ -23,10 +23,10 @@ PI = math.pi
 
 # (ansatz name, molecules, mappings, orderings)
 CATALOG = [
-    ("UCCSD", ["H2", "H2", "H4", "H2_triplet"], ["jw", "bk", "scbk", "jkmn"], [False, True]),
-    ("UpCCGSD", ["H2", "H4"], ["jw", "bk", "scbk", "jkmn"], [False, True]),
+    ("UCCSD", ["H2", "H2", "H4", "H2_triplet", "H4_f0", "H4_f03"], ["jw", "bk", "scbk", "jkmn"], [False, True]),
+    ("UpCCGSD", ["H2", "H4", "H4_f0"], ["jw", "bk", "scbk", "jkmn"], [False, True]),
     ("UCCGD", ["H2"], ["jw", "bk", "jkmn"], [False, True]),
-    ("HEA", ["H2", "H4"], ["jw", "bk", "scbk", "jkmn"], [False, True]),
+    ("HEA", ["H2", "H4", "H4_f0", "H4_f03"], ["jw", "bk", "scbk", "jkmn"], [False, True]),
     ("QMF", ["H2", "H4"], ["jw", "bk", "scbk"], [True]),
     ("QCC", ["H2"], ["jw", "bk", "scbk"], [True]),
     ("ILC", ["H2"], ["jw", "bk", "scbk"], [True]),
@@ -74,7 +74,7 @@ class SolverWorld(World):
         name, mols, maps, utds = rng.choice(CATALOG)
         mol = rng.choice(mols)
         if not thorough and mol == "H4" and rng.random() < 0.6:
-            mol = "H2"
+            mol = rng.choice(["H2", "H4_f0", "H4_f03"])
         cfg = {"ansatz": name, "mol": mol, "d": rng.choice([0.7, 0.9, 1.3]) if mol else None, "mapping": rng.choice(maps), "utd": rng.choice(utds),
                "n_steps": rng.randint(4, 9) if not thorough else rng.randint(6, 15),
                "shots": rng.choice([None, None, None, 2000]), "faults": rng.random() < 0.8, "fault_rate": rng.choice([0.15, 0.3]),
